@@ -229,6 +229,9 @@ def run(ctx):
             ctx.case(json.dumps([inst["R"], inst["ninv"], inst["d"]]))
             for msg in check_model(inst, env):
                 ctx.violation(dict(kind="kl", impl=msg.split(" ")[0], what=msg.split(": ")[1][:24] if ": " in msg else ""), "R=%s ninv=%s d=%s: %s" % (inst["R"], [lg.rv(x) for x in inst["ninv"]], inst["d"], msg), replay=dict(model=inst))
+    from props import C19_samples
+    with quiet():
+        C19_samples.run_samples(ctx, env[:3] if len(env) > 3 else env)
     ctx.traces += len(models)
     ctx.sample(dict(model={k: models[1][k] for k in ("R", "ninv", "d", "kl")}))
     ctx.exhaustive = True
@@ -236,6 +239,16 @@ def run(ctx):
 
 
 def replay(ctx, doc):
+    if "samples_hist" in doc["case"]:
+        from props import C19_samples
+        env = lg.jax_env()
+        for m in C19_samples.replay_hist(doc["case"]["samples_hist"], env[:3] if len(env) > 3 else env):
+            ctx.violation(doc.get("key", dict(kind="samples-container")), m, replay=doc["case"])
+        ctx.case("replay")
+        ctx.case("replay2")
+        ctx.sample(dict(replayed="samples history"))
+        ctx.states = ctx.transitions = 1
+        return
     inst = doc["case"]["model"]
     with quiet():
         msgs = check_model(inst, lg.jax_env())
